@@ -2,12 +2,14 @@
 From Coq Require Import List ZArith Bool QArith Qreduction.
 From NT Require Import Sx Rose.
 From NT Require Export RandomTree.
+From NT Require Import RandomTreeProofs.
 Import ListNotations.
 Open Scope Z_scope.
 
 Inductive case :=
-| CBuild (typed : bool) (d : sdef) (fuel : Z) (s : stream)
-    (* tree_class.build_random_tree(structure_def) with random/fabulist reading s *)
+| CBuild (typed : bool) (d : sdef) (fuel : Z) (rk : list (text * Z)) (s : stream)
+    (* tree_class.build_random_tree(structure_def) with random/fabulist reading s;
+       rk = a rank of the node types, proposed by the harness *)
 | CCyclic (d : sdef) (fuel : Z) (s : stream).
     (* D39: cyclic relation graph; the model's tree is as high as the fuel allows *)
 
@@ -34,11 +36,17 @@ Fixpoint sx_gt (typed : bool) (t : gt) : sx :=
           L (map (sx_gt typed) ch) ]
   end.
 
+(* the hypotheses of the C20 theorems, decided: the case is inside their domain *)
+Definition in_domain (d : sdef) (fuel : Z) (rk : list (text * Z)) : bool :=
+  let rkf := rk_of (map (fun p => (fst p, Z.to_nat (snd p))) rk) in
+  def_wfb d && rank_okb d rkf && Nat.ltb (rkf K_root) (Z.to_nat fuel) && mem K_root (d_rels d).
+
 Definition run20 (c : case) : sx :=
   match c with
-  | CBuild typed d fuel s =>
+  | CBuild typed d fuel rk s =>
       match build_random_tree d typed (Z.to_nat fuel) s with
-      | (cls, name, f) => L [sx_bool cls; sx_opt sx_text name; L (map (sx_gt typed) f)]
+      | (cls, name, f) =>
+          L [sx_bool cls; sx_opt sx_text name; L (map (sx_gt typed) f); sx_bool (in_domain d fuel rk)]
       end
   | CCyclic d fuel s =>
       let n := Z.to_nat fuel in
